@@ -82,7 +82,9 @@ RVSchemas ==
     [dependentRequired |-> [a |-> <<"b">>]], [dependentSchemas |-> [a |-> [required |-> <<"b">>]]],
     [unevaluatedProperties |-> FalseS, properties |-> [a |-> TrueS]],
     [items |-> [properties |-> [a |-> [const |-> Num(R_1)]]]], [items |-> [items |-> [type |-> "integer"]]],
-    [not |-> [type |-> "number"]], [anyOf |-> <<[type |-> "string"], [minimum |-> R_2]>>]>>
+    [not |-> [type |-> "number"]], [anyOf |-> <<[type |-> "string"], [minimum |-> R_2]>>],
+    \* multipleOf beyond the domain of L0 (verdicts "x"): the replay takes the canonical decoding's verdict as the oracle
+    [multipleOf |-> R_3], [multipleOf |-> R_2], [multipleOf |-> R_1]>>
 
 \* ------------------------------------------------------------ machine
 Single(s) == [docs |-> <<[uri |-> EmptyURI, s |-> s]>>]
